@@ -134,7 +134,7 @@ def getDocumentation (docs : List (List Char)) : Option (List Char) :=
   if d.isEmpty then none else some d
 
 /-- `get_data_type(type_expr, caller, table)`: returns the (possibly flagged) type expression. -/
-def getDataType (l : Option LocalTable) (g : GlobalTable) (caller : Option Identifier) :
+def getDataType (l : Option LocalTable) (g : GlobalTable) (caller : Option (List Char)) :
     TypeExpr → Except Panic (TypeExpr × Option DataType)
   | .named name =>
     if name.value == "int".toList then .ok (.named name, some .int)
@@ -147,14 +147,14 @@ def getDataType (l : Option LocalTable) (g : GlobalTable) (caller : Option Ident
     let sz := size.bind (·.value)
     match base with
     | .none =>
-      .ok (.array size .none info, caller.map (fun c => DataType.array sz .unknown c.value))
+      .ok (.array size .none info, caller.map (fun c => DataType.array sz .unknown c))
     | .some t off =>
       match getDataType l g caller t with
       | .error e => .error e
       | .ok (t', bt) =>
-        .ok (.array size (.some t' off) info, caller.map (fun c => DataType.array sz (DataType.ofOption bt) c.value))
+        .ok (.array size (.some t' off) info, caller.map (fun c => DataType.array sz (DataType.ofOption bt) c))
 
-def getDataTypeRef (l : Option LocalTable) (g : GlobalTable) (caller : Option Identifier)
+def getDataTypeRef (l : Option LocalTable) (g : GlobalTable) (caller : Option (List Char))
     (te : Option (Ref TypeExpr)) : Except Panic (Option (Ref TypeExpr) × Option DataType) :=
   match te with
   | none => .ok (none, none)
@@ -172,7 +172,7 @@ def buildTypeDecl (td : TypeDecl) (table : GlobalTable) (offset : Nat) : Except 
     if name.value == "main".toList then
       .ok ({ td with name := some (name.addError ⟨name.info.range, .MainIsNotAProcedure⟩) }, table)
     else
-      match getDataTypeRef none table (some name) td.typeExpr with
+      match getDataTypeRef none table (some name.value) td.typeExpr with
       | .error e => .error e
       | .ok (te', dt) =>
         let entry : TypeEntry := { name := name, dataType := dt, range := range, doc := getDocumentation td.doc }
@@ -183,15 +183,20 @@ def buildTypeDecl (td : TypeDecl) (table : GlobalTable) (offset : Nat) : Except 
           | .error e => .error e
           | .ok n' => .ok ({ td with typeExpr := te', name := some n' }, table)
 
+/-- `anonymous_creator`: the creator of an array type written in a parameter or variable declaration
+    is qualified by the procedure (`.` cannot occur in a name). -/
+def anonymousCreator (procedure : List Char) (name : Identifier) : List Char :=
+  procedure ++ '.' :: name.value
+
 /-- `build_parameter`. -/
-def buildParameter (p : Ref ParamDecl) (g : GlobalTable) (l : LocalTable) :
+def buildParameter (p : Ref ParamDecl) (procedure : List Char) (g : GlobalTable) (l : LocalTable) :
     Except Panic (Ref ParamDecl × LocalTable × Option VariableEntry) :=
   let range := p.val.info.range.shift p.offset
   match p.val with
   | .error _ => .ok (p, l, none)
   | .valid doc isRef none te info => let _ := (doc, isRef, te, info); .ok (p, l, none)
   | .valid doc isRef (some name) te info =>
-    match getDataTypeRef none g (some name) te with
+    match getDataTypeRef none g (some (anonymousCreator procedure name)) te with
     | .error e => .error e
     | .ok (te', dt) =>
       let entry : VariableEntry := { name := name, isRef := isRef, dataType := dt, range := range, doc := getDocumentation doc }
@@ -209,11 +214,11 @@ def buildParameter (p : Ref ParamDecl) (g : GlobalTable) (l : LocalTable) :
           | .ok n2 => .ok (⟨.valid doc isRef (some n2) te' info, p.offset⟩, l, some entry)
 
 /-- `build_variable`. -/
-def buildVariable (v : Ref VarDecl) (g : GlobalTable) (l : LocalTable) : Except Panic (Ref VarDecl × LocalTable) :=
+def buildVariable (v : Ref VarDecl) (procedure : List Char) (g : GlobalTable) (l : LocalTable) : Except Panic (Ref VarDecl × LocalTable) :=
   let range := v.val.info.range.shift v.offset
   match v.val with
   | .valid doc (some name) te info =>
-    match getDataTypeRef (some l) g (some name) te with
+    match getDataTypeRef (some l) g (some (anonymousCreator procedure name)) te with
     | .error e => .error e
     | .ok (te', dt) =>
       let entry : VariableEntry := { name := name, isRef := false, dataType := dt, range := range, doc := getDocumentation doc }
@@ -225,24 +230,24 @@ def buildVariable (v : Ref VarDecl) (g : GlobalTable) (l : LocalTable) : Except 
         | .ok n' => .ok (⟨.valid doc (some n') te' info, v.offset⟩, l)
   | _ => .ok (v, l)
 
-def buildParams (g : GlobalTable) : List (Ref ParamDecl) → LocalTable →
+def buildParams (procedure : List Char) (g : GlobalTable) : List (Ref ParamDecl) → LocalTable →
     Except Panic (List (Ref ParamDecl) × LocalTable × List VariableEntry)
   | [], l => .ok ([], l, [])
   | p :: ps, l =>
-    match buildParameter p g l with
+    match buildParameter p procedure g l with
     | .error e => .error e
     | .ok (p', l1, ent) =>
-      match buildParams g ps l1 with
+      match buildParams procedure g ps l1 with
       | .error e => .error e
       | .ok (ps', l2, ents) => .ok (p' :: ps', l2, (match ent with | some e => [e] | none => []) ++ ents)
 
-def buildVars (g : GlobalTable) : List (Ref VarDecl) → LocalTable → Except Panic (List (Ref VarDecl) × LocalTable)
+def buildVars (procedure : List Char) (g : GlobalTable) : List (Ref VarDecl) → LocalTable → Except Panic (List (Ref VarDecl) × LocalTable)
   | [], l => .ok ([], l)
   | v :: vs, l =>
-    match buildVariable v g l with
+    match buildVariable v procedure g l with
     | .error e => .error e
     | .ok (v', l1) =>
-      match buildVars g vs l1 with
+      match buildVars procedure g vs l1 with
       | .error e => .error e
       | .ok (vs', l2) => .ok (v' :: vs', l2)
 
@@ -252,10 +257,10 @@ def buildProcDecl (pd : ProcDecl) (table : GlobalTable) (offset : Nat) : Except 
   match pd.name with
   | none => .ok (pd, table)
   | some name =>
-    match buildParams table pd.params [] with
+    match buildParams name.value table pd.params [] with
     | .error e => .error e
     | .ok (params', l1, ents) =>
-      match buildVars table pd.vars l1 with
+      match buildVars name.value table pd.vars l1 with
       | .error e => .error e
       | .ok (vars', l2) =>
         let entry : ProcedureEntry :=
